@@ -178,6 +178,9 @@ func walk(c *gsim.Cluster, sf *schedFile, rng *rand.Rand, emit func(*gsim.Step))
 				}
 			}
 			emit(s)
+		case r < 98:
+			// whom the code's own periodic round addresses (the datagrams are dropped)
+			emit(c.GossipRound(pick(nodes)))
 		default:
 			if membership && rng.Intn(3) == 0 {
 				n := pick(sf.Crash)
